@@ -84,6 +84,10 @@ def gen_component_history(seed):
     natoms = rng.randint(2, 16)
     nops = rng.randint(1, 40)
     ops = [["new", size]]
+    # query schedule: "all" = every live atom is queried after every operation;
+    # "focus" = only one chosen atom is queried after every operation (consecutive queries
+    # from the same cell with mutations in between -- what a scan loop in the optimiser does)
+    focus_mode = rng.random() < 0.5
     coords = {}  # idx -> coords of live atoms (generator's own bookkeeping)
     known = {}  # idx -> coords of every atom ever created
     # start: a few atoms created + rebuild, like Debump.debump_biomolecule does
@@ -96,9 +100,13 @@ def gen_component_history(seed):
     if ninit:
         ops.append(["rebuild", size])
     nxt = ninit
+    if focus_mode and coords:
+        ops.append(["focus", rng.choice(sorted(coords))])
     for _ in range(nops):
         r = rng.random()
         live = sorted(coords)
+        if focus_mode and live and rng.random() < 0.12:
+            ops.append(["focus", rng.choice(live)])
         if (r < 0.25 and nxt < natoms) or not live:
             p = _gen_point(rng, size, list(coords.values()))
             coords[nxt] = p
@@ -183,12 +191,16 @@ def run_component_history(ops, stats=None):
         return a
 
     pending = set()  # spawned, waiting for the rebuild that registers them
+    focus = [None]
 
     def check(step):
         if pending:
             raise IllegalHistory("atoms spawned but never registered by a rebuild")
         nq = 0
-        for i in live:
+        todo = live
+        if focus[0] is not None and focus[0] in live:
+            todo = [focus[0]]
+        for i in todo:
             a = atoms[i]
             res = cells.get_near_cells(a)
             nq += 1
@@ -228,6 +240,9 @@ def run_component_history(ops, stats=None):
         if k == "new":
             size = op[1]
             cells = cells_mod.Cells(size)
+        elif k == "focus":
+            focus[0] = op[1]
+            continue
         elif k == "spawn":
             mk(op[1], op[2])
             live.append(op[1])
@@ -777,3 +792,36 @@ def replay(doc):
     if hit:
         print("witness: " + json.dumps(keys[doc['class']]["witness"]))
     return 1 if hit else 0
+
+
+@world.job_kind("c14.coverage")
+def job_coverage(job, scratch):
+    """Analysis aid (not a check): which lines of the files that touch the cell map does
+    a cfg execute?  Each line event is disabled after its first hit, so this is cheap."""
+    import sys as _sys
+
+    from sim import runner
+
+    mon = _sys.monitoring
+    tool = 3
+    pkg = world.REPO_PKG_DIR
+    files = tuple(pkg + f for f in ("debump.py", "cells.py", "hydrogens/__init__.py",
+                                    "hydrogens/structures.py", "hydrogens/optimize.py"))
+    hit = set()
+
+    def on_line(code, line):
+        fn = code.co_filename
+        if fn in files:
+            hit.add((fn[len(pkg):], line))
+        return mon.DISABLE
+
+    mon.use_tool_id(tool, "cov")
+    mon.register_callback(tool, mon.events.LINE, on_line)
+    mon.set_events(tool, mon.events.LINE)
+    try:
+        obs = runner.run_cfg(job["cfg"], scratch)
+    finally:
+        mon.set_events(tool, 0)
+        mon.register_callback(tool, mon.events.LINE, None)
+        mon.free_tool_id(tool)
+    return {"outcome": obs["outcome"], "lines": sorted(hit)}
